@@ -78,7 +78,7 @@ package nsqd
 //@ func (n *NSQD) statsdLoop()
 //@   props C13
 //@   requires n != nil && n.tcpServer != nil
-//@   requires[statsd-interval-config] curOpts(n).StatsdInterval >= 2000000000
+//@   requires[env-statsd-interval-config] curOpts(n).StatsdInterval >= 2000000000
 //@   loop 0
 //@     invariant[daemon] n.tcpServer != nil && interval >= 2000000000 && ticker != nil
 //@     invariant[one-flush-per-successful-dial] r6LSwFlushes - atloop(r6LSwFlushes) == r6LDialOKs - atloop(r6LDialOKs) && r6LBwFlushes - atloop(r6LBwFlushes) == r6LDialOKs - atloop(r6LDialOKs)
